@@ -25,38 +25,38 @@ type c10Prog struct {
 }
 
 var c10Files = map[string]string{
-	"attrs.vuego":        `<p :a="a" :b="b" :c="c" :d="d" :e="e" id="s">x</p>`,
-	"style.vuego":        `<p style="color: red; margin: 0; top: 1px" :style="{color: a, fontSize: '3px', left: b, zIndex: c}">x</p><i style="a:1; b:2; c:3; d:4" v-show="f">y</i>`,
-	"loop.vuego":         `<ul><li v-for="(i, v) in items" :data-i="i" :class="{odd: v}">{{ i }}={{ v }}</li></ul><p v-else>none</p>`,
-	"chain.vuego":        `<p v-if="a == 'x'">A</p><p v-else-if="b">B</p><p v-else>C</p>`,
-	"inc.vuego":          `<template include="comp.vuego" :p="a" q="{{ b }}"><b>slot {{ c }}</b></template><template include="comp.vuego" :p="b"></template>`,
-	"comp.vuego":         "---\nfm: FM\n---\n<section :data-p=\"p\"><slot>fallback</slot>{{ p }}/{{ q }}/{{ fm }}</section>",
-	"once.vuego":         `<div v-for="x in items"><i v-once>once</i><b>{{ x }}</b></div>`,
-	"filters.vuego":      `<p>{{ a | upper }} {{ b | default("dflt") }} {{ len(items) }} {{ a | lower | title }}</p>`,
-	"fm.vuego":           "---\ntitle: from-fm\nextra: [1, 2]\n---\n<h1>{{ title }}</h1><p>{{ a }}</p><i v-for=\"x in extra\">{{ x }}</i>",
-	"layouted.vuego":     "---\nlayout: main\n---\n<p>{{ a }} in layout</p>",
+	"attrs.vuego":    `<p :a="a" :b="b" :c="c" :d="d" :e="e" id="s">x</p>`,
+	"style.vuego":    `<p style="color: red; margin: 0; top: 1px" :style="{color: a, fontSize: '3px', left: b, zIndex: c}">x</p><i style="a:1; b:2; c:3; d:4" v-show="f">y</i>`,
+	"loop.vuego":     `<ul><li v-for="(i, v) in items" :data-i="i" :class="{odd: v}">{{ i }}={{ v }}</li></ul><p v-else>none</p>`,
+	"chain.vuego":    `<p v-if="a == 'x'">A</p><p v-else-if="b">B</p><p v-else>C</p>`,
+	"inc.vuego":      `<template include="comp.vuego" :p="a" q="{{ b }}"><b>slot {{ c }}</b></template><template include="comp.vuego" :p="b"></template>`,
+	"comp.vuego":     "---\nfm: FM\n---\n<section :data-p=\"p\"><slot>fallback</slot>{{ p }}/{{ q }}/{{ fm }}</section>",
+	"once.vuego":     `<div v-for="x in items"><i v-once>once</i><b>{{ x }}</b></div>`,
+	"filters.vuego":  `<p>{{ a | upper }} {{ b | default("dflt") }} {{ len(items) }} {{ a | lower | title }}</p>`,
+	"fm.vuego":       "---\ntitle: from-fm\nextra: [1, 2]\n---\n<h1>{{ title }}</h1><p>{{ a }}</p><i v-for=\"x in extra\">{{ x }}</i>",
+	"layouted.vuego": "---\nlayout: main\n---\n<p>{{ a }} in layout</p>",
 	// a page that hands named slots to its layout; the layout places them next to other content
-	"slotpage.vuego":    "---\nlayout: slots\n---\n<template #sidebar><nav>menu {{ b }}</nav></template><template v-slot:foot><i>f</i><b>g</b></template><p>Hello {{ a }}</p>",
+	"slotpage.vuego":      "---\nlayout: slots\n---\n<template #sidebar><nav>menu {{ b }}</nav></template><template v-slot:foot><i>f</i><b>g</b></template><p>Hello {{ a }}</p>",
 	"layouts/slots.vuego": `<aside><slot name="sidebar"></slot><footer>signed in as {{ a }}</footer></aside><main v-html="content"></main><div><slot name="foot"></slot><u>{{ b }}</u></div>`,
-	"layouts/main.vuego": `<html><body><div v-html="content"></div><footer>{{ a }}</footer></body></html>`,
-	"fail.vuego":         `<p>{{ a | nosuchfunction }}</p>`,
-	"failinc.vuego":      `<b>x</b><template include="missing.vuego"></template>`,
-	"fmset.vuego":        "---\ncount: 1\nlabel: L\n---\n<template :count=\"count + 1\" :label=\"a\"></template><p>visit {{ count }} {{ label }}</p>",
-	"nest.vuego":         `<template include="card.vuego" :t="a"></template><template include="card.vuego" :t="b"></template><i v-for="x in items"><template include="card.vuego" :t="x"></template></i>`,
-	"card.vuego":         `<div class="card"><template include="badge.vuego" :label="t" title="{{ t }}"></template><template v-html="t"></template></div>`,
-	"badge.vuego":        `<b :data-t="title">{{ label }}</b>`,
-	"failmid.vuego":      `<p title="tok={{ a }} exp={{ b | nosuchfunction }}">x</p>`,
-	"failtext.vuego":     `<p>tok={{ a }} and {{ b | nosuchfunction }} tail</p>`,
-	"failreq.vuego":      `<template include="req.vuego"></template>`,
-	"req.vuego":          `<template :required="zz"><i>{{ zz }}</i></template>`,
-	"tpl.vuego":          `<template :n="a"><p>{{ n }}</p></template><p>{{ n }}</p><template v-keep :m="b"><i>{{ m }}</i></template>`,
+	"layouts/main.vuego":  `<html><body><div v-html="content"></div><footer>{{ a }}</footer></body></html>`,
+	"fail.vuego":          `<p>{{ a | nosuchfunction }}</p>`,
+	"failinc.vuego":       `<b>x</b><template include="missing.vuego"></template>`,
+	"fmset.vuego":         "---\ncount: 1\nlabel: L\n---\n<template :count=\"count + 1\" :label=\"a\"></template><p>visit {{ count }} {{ label }}</p>",
+	"nest.vuego":          `<template include="card.vuego" :t="a"></template><template include="card.vuego" :t="b"></template><i v-for="x in items"><template include="card.vuego" :t="x"></template></i>`,
+	"card.vuego":          `<div class="card"><template include="badge.vuego" :label="t" title="{{ t }}"></template><template v-html="t"></template></div>`,
+	"badge.vuego":         `<b :data-t="title">{{ label }}</b>`,
+	"failmid.vuego":       `<p title="tok={{ a }} exp={{ b | nosuchfunction }}">x</p>`,
+	"failtext.vuego":      `<p>tok={{ a }} and {{ b | nosuchfunction }} tail</p>`,
+	"failreq.vuego":       `<template include="req.vuego"></template>`,
+	"req.vuego":           `<template :required="zz"><i>{{ zz }}</i></template>`,
+	"tpl.vuego":           `<template :n="a"><p>{{ n }}</p></template><p>{{ n }}</p><template v-keep :m="b"><i>{{ m }}</i></template>`,
 	// the elements with 3 and 5 attributes have spare capacity in the parsed attribute list (the tokenizer grows it 1, 2, 4, 8): an
 	// append to an aliased list would land in the cached node's array
 	// conditions whose operands change their dynamic Go type from one render to the next (int / float64 / int64 / uint8; string / nil / absent)
 	"types.vuego": `<p v-if="c == 3">three</p><p v-else>not three</p><i v-if="a != 'x'">nx</i><b :class="{on: c == 3}" v-show="c != 0">{{ c == 3 }}</b><u :data-e="c == 3">{{ a == 'x' }}</u>`,
 	"vhtml.vuego": `<div v-html="h"></div><p v-text="h"></p><pre v-pre>{{ a }}</pre><div class="box" id="main" v-html="a"></div>` +
 		`<p class="k" id="t" data-q="1" lang="en" v-text="b"></p><section class="s" title="t" v-html="b"></section><q class="c" id="i" lang="x" data-a="1" v-text="a"></q>`,
-	"map.vuego":          `<i v-for="v in one">{{ v }}</i><p>{{ m.k }} {{ m.l[1] }}</p>`,
+	"map.vuego": `<i v-for="v in one">{{ v }}</i><p>{{ m.k }} {{ m.l[1] }}</p>`,
 }
 
 func c10Data(variant int) func() map[string]any {
